@@ -756,7 +756,9 @@ def run_c15(tier, seed, replay=None, theorems=None, module=None):
             rep.obligation("docs:error-code-enums", False, str(e)); codes = None
         if not model or not impl or not server or not cachegen or not codes:
             return rep.finish()
-        if replay:
+        if replay and re.search(r"^update ", open(replay).read(), re.M):
+            hs = []              # replay of an in-process refresh history (check/refresh_inproc.py)
+        elif replay:
             hs = c15_parse_replay(open(replay).read())
         else:
             hs = [c15_plan(seed, k) for k in range(C15_N["thorough" if tier == "thorough" else "quick"])]
@@ -776,6 +778,47 @@ def run_c15(tier, seed, replay=None, theorems=None, module=None):
             served = list(ex.map(lambda h: c15_serve(h, server, cachegen), hs))
         t_http = time.time() - t0
         dd = Dedup(rep, stats)
+        # in-process refresh histories: TransitData::update* of the harness vs the Lean refresh model (check/refresh_inproc.py)
+        if not replay or re.search(r"^update ", open(replay).read(), re.M):
+            from . import refresh_inproc as RI
+            if replay:
+                rtxt = open(replay).read()
+                rcases = []
+                for blk in re.findall(r"^dataset .*?^end$", rtxt, re.S | re.M):
+                    did = blk.split()[1]
+                    kinds = [l.split()[0] for l in blk.splitlines() if l.split() and l.split()[0] in ("route", "summary", "accessibility", "update")]
+                    rcases.append((did, blk + "\n", kinds))
+                rres = engine.run_cases(rcases, impl, model) if rcases else {}
+                for did, blk, kinds in rcases:
+                    r = rres[did]
+                    for j, (ia, ma) in enumerate(zip(r["impl"], r["model"])):
+                        print("%s[%d] %s impl=%s%s" % (did, j, kinds[j], str(ia)[:200], "" if ia == ma else "   MODEL=%s" % str(ma)[:200]))
+                        if ia != ma:
+                            rep.corr.append(("refresh-history(model)", "model and implementation disagree at position %d: impl=%s model=%s" % (j, str(ia)[:160], str(ma)[:160]), blk))
+                    if r["impl_fail"]:
+                        dd.add("inproc-crash-after-refresh", "in-process refresh history crashed / hung: " + r["impl_fail"][:300], blk)
+                # fresh blocks of a replay are named <history>.f<k>: compare the phases after each update
+                byid = {did: (blk, kinds) for did, blk, kinds in rcases}
+                for did, (blk, kinds) in byid.items():
+                    if ".f" in did or did not in rres or rres[did]["impl_fail"]: continue
+                    ph, per = 0, {0: []}
+                    for j, k in enumerate(kinds):
+                        if k == "update": ph += 1; per[ph] = []
+                        else: per[ph].append(rres[did]["impl"][j])
+                    for k in range(1, ph + 1):
+                        f = rres.get("%s.f%d" % (did, k))
+                        if f and not f["impl_fail"] and per[k] != f["impl"]:
+                            dd.add("inproc-stale-after-refresh", "after the refresh the in-process TransitData answers %s, a fresh one on the new trips %s" % (str(per[k])[:200], str(f["impl"])[:200]), blk + byid["%s.f%d" % (did, k)][0])
+            else:
+                nri = C15_N["thorough" if tier == "thorough" else "quick"] * 2
+                rhs = [RI.plan(seed, k) for k in range(nri)]
+                rcases = [(did, text, kinds) for h in rhs for (did, text, kinds, meta) in RI.blocks(h)]
+                t0 = time.time()
+                rres = engine.run_cases(rcases, impl, model)
+                for h in rhs:
+                    RI.evaluate(h, rres, rep, stats, dd.add)
+                stats["inproc refresh histories"] = nri
+                rep.cov["inproc_refresh_s"] = round(time.time() - t0, 1)
         for h, sv in zip(hs, served):
             stats["histories %s" % h["special"]] += 1
             stats["histories cache %s" % ("All" if h["cacheall"] else "One")] += 1
@@ -1100,6 +1143,11 @@ def crash_kind(out, rc):
     return "exit", "rc%s" % rc
 
 
+def loader_noticed(log):
+    """did a loader complain?  (every start-up logs the three optional caches a generated directory never has)"""
+    return any("[error]" in l and not re.search(r"dataSources|persons|odTrips|households|places", l) for l in (log or "").splitlines())
+
+
 def loader_stage(log):
     """which loader was running last (from the server's own log lines)"""
     ms = re.findall(r"Fetching ([A-Za-z]+(?: and [A-Za-z]+)?) from cache", log or "")
@@ -1225,7 +1273,7 @@ def c17_startup_test(fdir, urls, codes, server_exe, cache_all, tag, plain_exe=No
                             if psrv is not None: psrv.stop()
                 return dict(outcome="startup-%s:%s" % (how, det), fail=("startup-" + how, det, "start-up ends with exit code %s while loading the %s: %s" % (srv.proc.poll(), loader_stage(out), asan_summary(out)), loader_stage(out)), noticed=True, keys=[])
         outcome, fail, keys = c17_probe(srv, urls, codes)
-        noticed = "[error]" in srv.output()
+        noticed = loader_noticed(srv.output())
         died = not srv.alive()
         rc, san = srv.stop(); srv = None
         if fail is None and san and not died:
@@ -1284,7 +1332,7 @@ def c17_update_test(holder, sub, urls, codes):
         outcome, fail, keys = c17_probe(srv, urls, codes)
         if j.get("status") == "error":
             outcome = "refresh-reports-error, then " + outcome      # the refresh ran to completion and says so; what counts is what the server does next
-        noticed = "[error]" in srv.output()[mark:]
+        noticed = loader_noticed(srv.output()[mark:])
         if fail is not None:
             fail = (fail[0] if fail[1] is None else "update-then-" + fail[0], fail[1], "after GET %s: %s" % (u, fail[2]))
             holder.stop()
